@@ -8,8 +8,11 @@ props = [json.loads(l) for l in open(os.path.join(ROOT, "properties.jsonl"))]
 
 NOTE = ("Theorems are about the Gallina mirror of the code (coq/Model), closed under the global context (no axioms; "
         "Print Assumptions is checked on every run). Tie to /repo on every run: constant tables, guard/callee lists and API "
-        "surface are regenerated from the source by gen/gen.py (a changed constant breaks a Qed); the kernels' control flow is "
-        "tied by differential replay of the real crate (dev and release profile, hooks on) on the model extracted from Coq. "
+        "surface are regenerated from the source by gen/gen.py, and the word-level expressions of the kernels (operations.rs, "
+        "decomposition.rs, cube.rs, ecube.rs, bdd.rs, canonization.rs) by gen/gen_exprs.py and proved equal to the model's "
+        "(Proofs/ExprsTie*.v) - a changed constant, operator, mask or shift breaks a Qed; loops, regime dispatch and the API "
+        "wrappers are tied by differential replay of the real crate (dev and release profile, hooks on) on the model extracted "
+        "from Coq, sharded over 14 processes. "
         "Trusted: Coq kernel + vm_compute, the translator, ExtrOcamlBasic extraction, OCaml/Rust glue, the stated Rust semantics "
         "(DESIGN.md section 9).")
 
@@ -17,7 +20,9 @@ CLAIMS = {
     "C01": ("Pointwise semantics of the word-wise AND/OR/XOR/NOT kernels and of the API wrappers proved for every n and every "
             "pair of well-formed tables (tables symbolic, no enumeration); results proved well-formed; size guard proved "
             "PanicAlways. Every Rust syntactic form (methods, in-place, operator traits on values/references, compound "
-            "assignment; Lut and all 13 LutN aliases) is tied to the single model function by the per-run transcript replay.",
+            "assignment; Lut and all 13 LutN aliases) is tied to the single model function by the per-run transcript replay; on the "
+            "API surface regenerated from the source: all 20 + 20 operator forms exist exactly once and each forwards to the kernel "
+            "of its own operator and no other (C01_forms_complete, C01_operators_forward).",
             "section 6 C01"),
     "C02": ("Well-formedness (exactly max(1,2^n/64) blocks, no bit at a position >= 2^n) proved to be an inductive invariant of the "
             "WHOLE table-producing API: a call language with 37 constructors (all constructors, random over any generator stream, "
@@ -31,11 +36,14 @@ CLAIMS = {
             "(symbolic): p/n/npn_canonization return Ok (no panic), the representative is <= every table in the orbit (P: all "
             "permutations; N: all 2^(n+1) complementations; NPN: both) in the library's own order (cmp, = numeric order), it is itself "
             "in the orbit, canonizing it returns it unchanged, and two functions get the same representative iff they are equivalent "
-            "under the group (group laws of the action proved for every n).", "section 6 C04"),
+            "under the group (group laws of the action proved for every n). Beyond the bound: the Gray-code flip walk and the "
+            "Steinhaus-Johnson-Trotter swap walk are PROVED closed walks through the whole group for every n, so the same theorems "
+            "hold for P at every n and for N / NPN at every n <= 31 (C04_*_general).", "section 6 C04"),
     "C05": ("For n <= 8 and every well-formed table: the returned (perm, mask) is a valid certificate - perm a permutation of 0..n, "
             "mask < 2^(n+1), and the returned table equals y |-> f(x) xor mask[n] with x[perm[i]] = y[i] xor mask[i] on every "
             "assignment; P uses mask 0, N the identity permutation; stated separately for already-canonical inputs (where the pinned "
-            "code failed). Walk invariant proved for arbitrary valid closed sequences and every n.", "section 6 C05"),
+            "code failed). Walk invariant proved for arbitrary valid closed sequences and every n; certificates also for P at every n "
+            "and N / NPN at every n <= 31 (C05_*_general).", "section 6 C05"),
     "C03": ("flip, swap, swap_adjacent, cofactor0/1, from_cofactors proved exact at the level of the function value "
             "(val t' m = val t (flipbit/swapbits/clearbit/setbit m ..)) for EVERY n, every well-formed table and every index "
             "< n, in all storage regimes (in-word via masked-shift pieces checked by vm_compute on the generated VAR_MASK / "
@@ -50,12 +58,14 @@ CLAIMS = {
     "C07": ("table_complexity proved equal, for every n and every list of well-formed tables, to bdd_nodes: the number of distinct "
             "complement-normalised sub-functions per level that depend on the level variable and are not a literal (the standard "
             "characterisation of the nodes of a shared ROBDD with complement edges); invariance under permutation, duplicates and "
-            "complementation proved; API layer for Lut and LutN. The link from bdd_nodes to a constructive unique-table BDD build "
-            "is not proved (stated in DESIGN.md).", "section 6 C07"),
+            "complementation proved; API layer for Lut and LutN. A constructive shared ROBDD with complemented edges (mk + unique "
+            "table, Shannon expansion from variable n-1; Spec/BddBuild.v) is proved canonical and to have exactly bdd_nodes "
+            "non-literal nodes, hence = table_complexity (C07_build_count, C07_build_model).", "section 6 C07"),
     "C08": ("cmp proved to be numeric comparison of the table read as one 2^n-bit number (most significant bit = all-ones "
             "assignment); total order laws; extensionality (wf_ext); successor proved = +1 mod 2^(2^n) incl. carries through any "
             "number of all-ones words; the iterator proved to yield exactly the functions 0..2^(2^n)-1 in order, each once, by "
-            "induction (no enumeration, all n).", "section 6 C08"),
+            "induction (no enumeration, all n); cmp proved equal to the lexicographic order of the fixed-width hex (and binary) "
+            "strings, printing injective.", "section 6 C08"),
     "C09": ("to_hex/to_bin width, characters, per-digit and per-bit exactness; Display/LowerHex/Binary wrappers; from_hex_string "
             "total (never panics), accepts exactly the well-formed strings (length, hex digits, value fits), denotes the string, "
             "upper = lower case, round trip parse(print t) = t; rejects every string with a non-hex byte or a wrong length. All n.",
@@ -65,7 +75,10 @@ CLAIMS = {
             "types admit. LutN -> Lut -> LutN proved the identity, TryFrom proved to fail exactly when the variable counts differ, "
             "u8/u16/u32/u64 conversions of Lut3..Lut6 proved bit-exact bijections (bit m of the integer is f(m)); the 13 aliases are "
             "read from the source (generated) and proved to be StaticLut<N, table_size N>. Both Rust types are tied to the shared model "
-            "function by paired transcript replay (identical inputs on both types, every alias N = 0..12).", "section 6 C10"),
+            "function by paired transcript replay (identical inputs on both types, every alias N = 0..12); on the regenerated API "
+            "surface: same 46 public methods, same signatures modulo num_vars, same kernels called in the same order, same trait "
+            "impls, every public method mapped to its model function (C10_same_kernels, C10_every_public_method_modelled).",
+            "section 6 C10"),
     "C17": ("(A) On the guard structure REGENERATED FROM THE SOURCE on every run (Gen/Guards.v): every parameter of every public method "
             "of impl Lut / impl StaticLut is classified by (name, type); every variable-index, assignment-index, second-table and "
             "block-slice parameter is proved guarded by an always-on check placed BEFORE the first profile-sensitive kernel call "
